@@ -50,6 +50,19 @@ CHECKS = {
         design_ref="DESIGN.md section 3 C05, section 8",
         technique="who-may-call table; forward must-analysis over MIR CFG; provenance",
     ),
+    "C10": dict(
+        category="other",
+        text="Decides only the guard the statement names, for every generated parser in the workspace (the current grammar's and the "
+             "migrator's previous-grammar one): each function that drives a parol LLKParser sets max_parsing_depth to a literal in "
+             "1..=4096 on every path before parse_into; each generated parse entry is called only from its crate's Parser::parse; "
+             "Parser::parse hands the generated parser the owned newline-terminated copy of the input, not the caller's text. "
+             "A weak but genuine necessary condition: on its first run it found two real defects in the migrator's parser (no depth "
+             "cap: stack overflow on deep nesting; original input parsed: a final line comment could not be migrated), both "
+             "reproduced with the binary and fixed (F17, F18). It does not decide termination or panic-freedom of the generated "
+             "LL(k) parser and scanner on all inputs, nor that diagnostic spans lie inside the input.",
+        design_ref="DESIGN.md section 3 C10, section 8.4m",
+        technique="who-must-call with literal argument check (must-facts before the parse call); who-may-call; argument provenance",
+    ),
     "C13": dict(
         category="other",
         text="Decides the provenance chain of a source-map entry across three crates: Emitter::push_token anchors a token's text with "
